@@ -191,6 +191,32 @@ def classify(evs):
             continue
         exc_on = ev.run['exc'] != 'None'
         fl = run_flags(ev.run)
+        wit_cache = {}
+        if ev.missing and not fl:
+            # the obliged derivations of ALL missing peptides, one oracle call per transcript
+            for tx_id, x in ev.xs.items():
+                by_p = collections.defaultdict(list)
+                for q, w in O.call('cv_must_witnesses_of', [x, list(ev.missing)]):
+                    by_p[O.U(q)].append(w)
+                wit_cache[tx_id] = by_p
+        base_cache = {}
+        if ev.missing and fl:
+            # flagged run: per transcript ONE call for the obliged set, one for the bases of all missing forms,
+            # one for the derivations of all those bases
+            for tx_id, x in ev.xs.items():
+                must_tx = set(O.U(q) for q in O.call('cv_must_fl', [x, fl]))
+                mine = [p for p in ev.missing if p in must_tx]
+                bases = collections.defaultdict(set)
+                if mine:
+                    for pq in O.call('cv_must_bases_fl_many', [x, fl, mine]):
+                        bases[O.U(pq[0])].add(O.U(pq[1]))
+                base_cache[tx_id] = {p: sorted(bases.get(p, [])) for p in mine}
+                allb = sorted(set(b for bs in bases.values() for b in bs))
+                by_p = collections.defaultdict(list)
+                if allb:
+                    for q, w in O.call('cv_must_witnesses_of', [unlimited(x), allb]):
+                        by_p[O.U(q)].append(w)
+                wit_cache[tx_id] = by_p
         for p in list(ev.missing):
             tags = []
             for tx_id, x in ev.xs.items():
@@ -198,14 +224,17 @@ def classify(evs):
                 if fl:
                     # an alt form: judge the derivations of every obliged product it is a form of -- only in
                     # the transcripts that oblige p at all (elsewhere p may be a mere reference product)
-                    if p not in [O.U(q) for q in O.call('cv_must_fl', [x, fl])]:
+                    if p not in base_cache.get(tx_id, {}):
                         continue
-                    bases = [O.U(q) for q in O.call('cv_must_bases_fl', [x, fl, p])]
+                    bases = base_cache[tx_id][p]
                     xw = unlimited(x)
                 else:
                     bases, xw = [p], x
                 for q in bases:
-                    ws = SG.decode_wits(O.call('cv_must_witnesses', [xw, q]), recs)
+                    if tx_id in wit_cache:
+                        ws = SG.decode_wits(wit_cache[tx_id].get(q, []), recs)
+                    else:
+                        ws = SG.decode_wits(O.call('cv_must_witnesses', [xw, q]), recs)
                     if not ws:
                         continue
                     if SG.explained_by_stoploss(xw, recs, _cds_end(ev.case, tx_id), ws):
@@ -221,15 +250,21 @@ def classify(evs):
                     else:
                         tags.append(None)
             ev.missing[p] = None if (not tags or None in tags) else sorted(set(tags))[0]
-        for p in list(ev.extra):
-            tag = None
-            if exc_on:
-                if any(O.call('cv_realizable_relaxed', [x, [p]])[0] for x in ev.xs.values()):
-                    tag = F_D14
-            if tag is None and ev.run['rule'] in rule_classes()['wide']:
-                if any(SG.substring_realizable(x, p) for x in ev.xs.values()):
-                    tag = F_PEPSIN
-            if tag is None and not run_flags(ev.run):
+        extras = list(ev.extra)
+        if extras:
+            # one oracle call per (signature, transcript) for ALL unrealizable peptides of the run
+            def any_tx(api, extra_args=None):
+                acc = [False] * len(extras)
+                for x in ev.xs.values():
+                    fl_ = O.call(api, [x] + (extra_args or []) + [extras])
+                    acc = [a or bool(b) for a, b in zip(acc, fl_)]
+                return acc
+            d14 = any_tx('cv_realizable_relaxed') if exc_on else [False] * len(extras)
+            wide = ev.run['rule'] in rule_classes()['wide']
+            sub = [any(SG.substring_realizable(x, p) for x in ev.xs.values()) for p in extras] if wide else [False] * len(extras)
+            soft = any_tx('cv_realizable_relaxed2') if not run_flags(ev.run) else [False] * len(extras)
+            junc = [False] * len(extras)
+            if not run_flags(ev.run):
                 # fusion: an indel record within 3 nt of a breakpoint makes the engine lose / gain a base at the junction
                 for f in ev.case.get('fusions', []):
                     dr = ev.recs.get(f['donor_tx'], []); ar = ev.recs.get(f['acc_tx'], [])
@@ -239,14 +274,19 @@ def classify(evs):
                         continue
                     xd = CG.tx_input(ev.case, f['donor_tx'], dr, ev.run); xa = CG.tx_input(ev.case, f['acc_tx'], ar, ev.run)
                     alts = [(d1, d2) for d1 in (-1, 0, 1) for d2 in (-1, 0, 1) if (d1, d2) != (0, 0)]
-                    oks = O.call_many([('cv_fusion_realizable', [xd, f['bp'] + d1, xa, f['abp'] + d2, [p]]) for d1, d2 in alts])
-                    if any(o[0] for o in oks):
-                        tag = F_FUSJUNC
-            if tag is None and not run_flags(ev.run):
-                # a site that needs look-behind (e.g. trypsin W-K-P) missed by the node-local evaluation
-                if any(O.call('cv_realizable_relaxed2', [x, [p]])[0] for x in ev.xs.values()):
+                    oks = O.call_many([('cv_fusion_realizable', [xd, f['bp'] + d1, xa, f['abp'] + d2, extras]) for d1, d2 in alts])
+                    junc = [a or any(o[k] for o in oks) for k, a in enumerate(junc)]
+            for k, p in enumerate(extras):
+                tag = None
+                if d14[k]:
+                    tag = F_D14
+                elif sub[k]:
                     tag = F_PEPSIN
-            ev.extra[p] = tag
+                elif junc[k]:
+                    tag = F_FUSJUNC
+                elif soft[k]:
+                    tag = F_PEPSIN
+                ev.extra[p] = tag
 
 # ------------------------------------------------------------------ helpers for the property modules
 def strip_case(c):
@@ -284,6 +324,8 @@ def dist_of(cases):
     return dict(sorted(d.items()))
 
 def annotate_stability(ctx, violations, judge, max_known=2, reps=4, want_may=False, tag='stab'):
+    if getattr(ctx, 'quick', False):
+        max_known = 0           # quick tier: re-run only cases with an UNEXPLAINED disagreement
     """callVariant is order dependent on some inputs (D14, several records on a stop codon): re-run the
     case of every unexplained violation (and of the first few hits of each known finding) `reps` times in
     one batch and record in the replay how often the same verdict shows again."""
@@ -326,3 +368,41 @@ def annotate_stability(ctx, violations, judge, max_known=2, reps=4, want_may=Fal
         v['replay_obj']['reproduced'] = '%d/%d' % (hits, reps)
         v['replay_obj']['repeat'] = max(reps, 4)
         v['what'] += ' [reproduced %d/%d re-runs]' % (hits, reps)
+
+
+def run_streams(ctx, cases, judge, violations, stats, want_may=True, tag='cv', batch=1500):
+    """run the cases stream by stream (one implementation batch + one oracle batch each) and record the wall
+    time of every stream, so that a stream that has become slow is visible in the evidence"""
+    import time as _t
+    order = []
+    groups = {}
+    for c in cases:
+        st = c.get('stream', '?').split(':')[0]
+        if st not in groups:
+            groups[st] = []; order.append(st)
+        groups[st].append(c)
+    wall = {}
+    for st in order:
+        t0 = _t.time()
+        cs = groups[st]
+        for i in range(0, len(cs), batch):
+            judge(run_batch(ctx, cs[i:i + batch], want_may=want_may, tag=tag), violations, stats)
+        wall[st] = round(_t.time() - t0, 1)
+    return wall
+
+def max_w_run(case, run, L):
+    """largest number of W in any window of L residues of any reading frame of a transcript carrying records:
+    bounds the 2^w W>F images the oracle (and the tool) enumerate per product"""
+    best = 0
+    by_tx, _ = CG.tx_records(case)
+    from harness.lib import gen_reference as _G
+    for g in case['world']['genes']:
+        for t in g['transcripts']:
+            if not by_tx.get(t['id']):
+                continue
+            s = _G.tx_seq(case['world'], g, t)
+            for fr in range(3):
+                aa = ''.join(_G.CODON.get(s[i:i + 3], 'X') for i in range(fr, len(s) - 2, 3))
+                for i in range(len(aa)):
+                    best = max(best, aa[i:i + L].count('W'))
+    return best
